@@ -8,4 +8,12 @@ export GOFLAGS=-mod=mod GOPROXY=off GOSUMDB=off GOTOOLCHAIN=local
 T=$(mktemp -d /tmp/gomacro-baseline.XXXXXX)
 trap 'rm -rf "$T"' EXIT
 rsync -a --exclude .git /repo/ "$T/repo/"
+# The pinned HEAD carries fixture files regenerated (unformatted, crud_gen.go importing its own
+# package) by earlier suite runs; restore the generated fixtures of the original snapshot commit.
+ROOT=$(git -C /repo rev-list --max-parents=0 HEAD | tail -1)
+for f in analysis/sql/test/crud_gen.go generator/dart/test/predefined.dart generator/dart/test/testsource.dart \
+  generator/dart/test/testsource_subpackage.dart generator/go/gounions/test/gen.go generator/go/randdata/test/data.go \
+  generator/sql/test/create.sql generator/typescript/test/gen.ts; do
+  git -C /repo show "$ROOT:$f" > "$T/repo/$f"
+done
 cd "$T/repo" && go test -json -vet=off -count=1 -timeout 25m ./...
